@@ -249,6 +249,11 @@ impl<
                 m.iter()
                     // Sanity check. Verify that the store agrees that this key is expired.
                     .filter_map(|(k, v)| {
+                        #[cfg(transparencies_stretto_verif)]
+                        crate::verif::obs(crate::verif::Obs::SweepKey {
+                            key: *k,
+                            conflict: *v,
+                        });
                         self.expiration(k)
                             .and_then(|t| {
                                 if t.is_expired() {
@@ -286,6 +291,11 @@ impl<
         let mut removed_items = Vec::new();
         if let Some(items) = items {
             for (k, v) in items.iter() {
+                #[cfg(transparencies_stretto_verif)]
+                crate::verif::obs(crate::verif::Obs::SweepKey {
+                    key: *k,
+                    conflict: *v,
+                });
                 let expiration = self.expiration(k);
                 if let Some(t) = expiration {
                     if t.is_expired() {
@@ -320,6 +330,32 @@ impl<
 
     pub fn item_size(&self) -> usize {
         self.store_item_size
+    }
+}
+
+#[cfg(transparencies_stretto_verif)]
+impl<
+        V: Send + Sync + 'static,
+        U: UpdateValidator<Value = V>,
+        SS: BuildHasher + Clone + 'static,
+        ES: BuildHasher + Clone + 'static,
+    > ShardedMap<V, U, SS, ES>
+{
+    pub(crate) fn verif_snapshot<F: Fn(&V) -> u64>(&self, val_id: F) -> crate::verif::StoreSnap {
+        let mut items = Vec::new();
+        for shard in self.shards.iter() {
+            let data = shard.read();
+            for (k, it) in data.iter() {
+                let (d, c) = it.expiration.verif_parts();
+                items.push((*k, it.conflict, val_id(it.value.get()), d, c));
+            }
+        }
+        items.sort();
+        crate::verif::StoreSnap {
+            len: items.len(),
+            items,
+            buckets: self.em.verif_buckets(),
+        }
     }
 }
 
